@@ -2,7 +2,7 @@
     Definitions only. *)
 From W.lib Require Import Tree Bytes.
 From W.model Require Import Diff.
-From Coq Require Import Arith Sorting.Sorted.
+From Coq Require Import Arith ZArith Sorting.Sorted.
 
 Definition klt_p (a b : key) : Prop := kcmp a b = Lt.
 
@@ -101,3 +101,14 @@ Section Spec.
     end.
   Definition is_removed (d : dev) : bool := match d with Removed _ _ _ => true | _ => false end.
 End Spec.
+
+(** the windows (start, end) that iterateAndMatch computes for blocks i, i+1, ... of table 1,
+    with prevEnd threaded exactly as the loop does *)
+Fixpoint windows_from (guard : bool) (A B : list key) (cnt i prevEnd : nat) : list (Z * Z) :=
+  match cnt with
+  | O => []
+  | S cnt' =>
+      let w := find_overlapping_g guard A B i prevEnd in
+      w :: windows_from guard A B cnt' (S i) (Z.to_nat (snd w))
+  end.
+Definition windows (A B : list key) : list (Z * Z) := windows_from true A B (length A) 0 0.
